@@ -94,8 +94,13 @@ def gen_plan(verif_seed, run, vle_full_every=10):
         op = {"fn": "fit_vle", "args": {"data": ref("vle", 0), "method": None}, "objective_on": 0, "check_best_vle": True,
               "id": len(ops), "clock": {"gap": 1000, "step": 1}}
         ops.insert(o.randint(0, len(ops)), op)
-        for i, p in enumerate(ops):
-            p["id"] = i
+    # evaluation / scaling / construction of permeance functions cost nothing next to a fit: a few more of them between the fits
+    for _ in range(o.randint(2, 6)):
+        op = hist.g_fn_op(o, M)
+        op["clock"] = {"gap": c.choice([1, 1000, c.randint(1, 10**11)]), "step": c.choice([0, 1, 1000])}
+        ops.insert(o.randint(0, len(ops)), op)
+    for i, p in enumerate(ops):
+        p["id"] = i
     return {"prop": PROP, "verif_seed": verif_seed, "run": run, "run_seed": rs, "budget": 5000, "world": spec, "ops": ops,
             "new_interpreter_ref": run % 20 == 7}
 
@@ -173,12 +178,28 @@ def extra_oracles(op, rep, refrep, fresh, st, plan, now):
         vals = _plain_list(tree["d"][1][1]) if isinstance(tree, dict) and "d" in tree and len(tree["d"]) > 1 else []
         for (x, t), pair in zip(op.get("grid") or [], vals):
             _, mag = _fn_eval(f, x, t)
+            cs = c
+            if isinstance(c, dict):
+                cs = c["$array"] if "$array" in c else (c["$npint"] if "$npint" in c else c["$npfloat"])
+            if isinstance(cs, list):
+                # an array constant: the product is vector valued, one value per element of the constant
+                got = pair[1] if pair is not None else None
+                fv = pair[0] if pair is not None else None
+                if isinstance(fv, float) and (abs(fv) > 1e290 or fv != fv):
+                    continue
+                st["mul_checks"] += 1
+                ok = isinstance(fv, float) and isinstance(got, list) and len(got) == len(cs) and all(
+                    isinstance(g_, float) and _close(g_, ck * fv, _tol(mag)) for g_, ck in zip(got, cs))
+                if not ok:
+                    raise Violation("C16.form", op, {"note": "(f*c)(x,T) != c*f(x,T) element by element for an array constant c", "x": x, "T": t,
+                                                     "f": fv, "f_times_c": got, "c": cs})
+                continue
             if pair is not None and all(isinstance(v, float) for v in pair) and (
                     max(abs(pair[0]), abs(pair[1])) > 1e290 or pair[0] != pair[0] or pair[1] != pair[1]):
                 continue      # f or f*c left the finite range: (alpha*c)*exp(e) and c*(alpha*exp(e)) overflow at different points
             st["mul_checks"] += 1
-            if pair is None or not _close(pair[1], c * pair[0], _tol(mag)):
-                raise Violation("C16.form", op, {"note": "(f*c)(x,T) != c*f(x,T)", "x": x, "T": t, "f": pair and pair[0], "f_times_c": pair and pair[1], "c": c})
+            if pair is None or not all(isinstance(v, float) for v in pair) or not _close(pair[1], cs * pair[0], _tol(mag)):
+                raise Violation("C16.form", op, {"note": "(f*c)(x,T) != c*f(x,T)", "x": x, "T": t, "f": pair and pair[0], "f_times_c": pair and pair[1], "c": cs})
     # ---- best-of selection (permeance functions)
     if op.get("check_best") and rep["kind"] == "ok" and isinstance(d.get("loss"), float):
         a = op["args"]
